@@ -70,7 +70,7 @@ def itemR (σ : SpanTab) (f : Nat) (ts : List Tok) (ps : RParams) (phase : Nat) 
         if phase ≤ 2 then
           (match parseRTest σ f r with
            | some (d, r') =>
-             let a := RParam.mk (σ ts.length) (σ ts.length) n (some d)
+             let a := RParam.mk ((σ ts.length).1, d.range.2) (σ ts.length) n (some d)
              if phase = 2 then some ({ ps with kwonly := ps.kwonly ++ [a] }, phase, r')
              else some ({ ps with args := ps.args ++ [a] }, phase, r')
            | none => none)
